@@ -238,6 +238,35 @@ def run(chk):
                 r = recs[-1]
                 chk.samples.append({"template": gen_tmpl.print_file(r.file)[:400], "env": r.env, "rendered": r.got.decode("utf-8", "replace")[:300]})
             lrender.compile_correspondence(chk, files, ("cls", "perr", "gtext"))
+        # known finding F42: `!= @render X()` with a nested block — the unescaped context leaks into the block
+        if br.go_ok:
+            wb = render.Batch()
+            wtext = ("package main\n\n@goht W42X(E *Env) {\n\t= @children\n}\n\n@goht W42(E *Env) {\n\t!= @render W42X(E)\n\t\t%p= E.S[0]\n"
+                     "\t= @render W42X(E)\n\t\t%i= E.S[0]\n}\n")
+            try:
+                wb.add("w42", wtext, ["W42X", "W42"])
+                wb.build()
+                if "w42" in wb.rejected or "w42" in wb.build_errors:
+                    chk.notes.append("F42 witness is no longer accepted by the compiler: " + str(wb.rejected.get("w42") or wb.build_errors.get("w42"))[:200])
+                else:
+                    env = gen_tmpl.gen_env(rng)
+                    env["S"][0] = '<b>&"'
+                    st, w = render.parse_render(wb.run(["render W42 buf " + render.env_json(env, lrender.OBJS)])[0])
+                    got = b"".join(w)
+                    chk.case("F42-witness", nontrivial=True)
+                    if st == "ok" and got == b"<p>&lt;b&gt;&amp;&#34;</p>\n<i>&lt;b&gt;&amp;&#34;</i>\n":
+                        chk.notes.append("known finding F42 no longer reproduces")
+                        chk.traces += 1
+                    elif st == "ok" and got == b'<p><b>&"</p>\n<i>&lt;b&gt;&amp;&#34;</i>\n':
+                        for kf in common.load_known():
+                            if kf["property"] == "C02" and kf["id"] == "F42" and kf["status"] == "open" and kf not in chk.known_seen:
+                                chk.known_seen.append(kf)
+                        chk.count("known-F42")
+                    else:
+                        chk.violation("oracle", "a value inside the block of a render command is neither escaped once nor inserted verbatim (status %s)" % st,
+                                      input_text=wtext, env=env, expected="<p>&lt;b&gt;&amp;&#34;</p>\n<i>&lt;b&gt;&amp;&#34;</i>\n", got=got.decode("utf-8", "replace"))
+            finally:
+                wb.close()
         # S-HTMLTOK: the tokenizer of Proofs/HtmlTokProofs.v is a reading of "document structure", not a model of goht code; it is
         # validated here against an independent HTML tokenizer (Python html.parser) on the documents the real pipeline rendered.
         # A disagreement says nothing about goht: it is counted and announced, never reported as a violation.
